@@ -23,7 +23,7 @@ func r10_4(c *Ctx, r *Report) {
 	r.rule(rule, "Defaults. ListSolarFromBaZi delegates to …BySect(…, 2), which delegates to …BySectAndBaseYear(…, 1900), arguments passed through unchanged.")
 	for _, t := range []struct {
 		from, to string
-		k      int64
+		k        int64
 	}{{"calendar.ListSolarFromBaZi", "calendar.ListSolarFromBaZiBySect", 2}, {"calendar.ListSolarFromBaZiBySect", "calendar.ListSolarFromBaZiBySectAndBaseYear", 1900}} {
 		fn := c.Fn(r, rule, t.from)
 		if fn == nil {
@@ -44,4 +44,3 @@ func r10_4(c *Ctx, r *Report) {
 		r.check(okk, rule, fmt.Sprintf("%s -> %s(…, %d)", t.from, t.to, t.k), c.fnPos(fn), "pure delegation with the documented default")
 	}
 }
-
